@@ -4,19 +4,24 @@ import (
 	"context"
 	"fmt"
 	"io"
+	"net"
 	"net/http"
 	"net/http/httptest"
 	"net/url"
 	"runtime"
 	"sync"
+	"sync/atomic"
+	"syscall"
 	"time"
 
 	"google.golang.org/grpc"
+	"google.golang.org/grpc/encoding"
 	"google.golang.org/protobuf/encoding/protowire"
 	"google.golang.org/protobuf/proto"
 	"google.golang.org/protobuf/types/known/anypb"
 	"google.golang.org/protobuf/types/known/wrapperspb"
 
+	"github.com/fullstorydev/grpchan"
 	"github.com/fullstorydev/grpchan/httpgrpc"
 	"github.com/fullstorydev/grpchan/inprocgrpc"
 	"verifharness/hx"
@@ -147,6 +152,20 @@ func init() {
 		withUnknown.ProtoReflect().SetUnknown(unk)
 		contents = append(contents, withUnknown)
 		tr := bothTransports(echoSvc())
+		// the in-process channel once more through each of the other cloner configurations: a message must
+		// arrive intact (unknown fields, empty and nil values included) whichever way it is copied
+		for _, cl := range []struct {
+			name string
+			c    inprocgrpc.Cloner
+		}{
+			{"inprocgrpc/codec-cloner", inprocgrpc.CodecCloner(encoding.GetCodec("proto"))},
+			{"inprocgrpc/clone-func", inprocgrpc.CloneFunc(grpchan.VerifCloneMessage)},
+			{"inprocgrpc/copy-func", inprocgrpc.CopyFunc(grpchan.VerifCopyMessage)},
+		} {
+			ipc := (&inprocgrpc.Channel{}).WithCloner(cl.c)
+			ipc.RegisterService(hx.Desc(hx.SvcName), echoSvc())
+			tr = append(tr, transportT{cl.name, ipc, func() {}})
+		}
 		id := 0
 		for _, t := range tr {
 			for ci, c := range contents {
@@ -312,6 +331,7 @@ func init() {
 		cancelledBehind(o, &id)
 		// the same bytes delivered in small pieces (a re-chunking proxy, a slow connection) decode to the same messages
 		fragmentedDelivery(o, r, &id)
+		lostReplies(o, &id)
 		o.Shard = 30
 	}
 }
@@ -492,5 +512,123 @@ func hugeUnaryRequest(o *hx.Out, id *int) {
 			goChecked(o, "huge_unary_"+t.name, *id, ok, d)
 		}
 		t.stop()
+	}
+}
+
+// faultRT lets the request reach the real server (so the handler runs and the reply is produced) and then
+// loses the reply: the caller of RoundTrip sees the kind of error a connection that died at that moment gives
+type faultRT struct {
+	inner http.RoundTripper
+	err   error
+	left  int32 // how many replies to lose
+}
+
+func (f *faultRT) RoundTrip(rq *http.Request) (*http.Response, error) {
+	resp, err := f.inner.RoundTrip(rq)
+	if err != nil {
+		return resp, err
+	}
+	if atomic.AddInt32(&f.left, -1) >= 0 {
+		io.Copy(io.Discard, resp.Body)
+		resp.Body.Close()
+		return nil, f.err
+	}
+	return resp, nil
+}
+
+// lostReplies: one RPC hands its request messages to the handler at most once, also when the connection is
+// lost after the handler ran and before the reply reached the client; the call then fails, and the channel
+// stays usable (the next RPC is again delivered once)
+func lostReplies(o *hx.Out, id *int) {
+	faults := []struct {
+		name string
+		err  error
+	}{
+		{"EOF", io.EOF},
+		{"unexpected EOF", io.ErrUnexpectedEOF},
+		{"connection reset", &net.OpError{Op: "read", Net: "tcp", Err: syscall.ECONNRESET}},
+		{"broken pipe", &net.OpError{Op: "write", Net: "tcp", Err: syscall.EPIPE}},
+		{"server closed idle connection", fmt.Errorf("http: server closed idle connection")},
+	}
+	for _, f := range faults {
+		for _, kind := range []string{"unary", "CS", "BD"} {
+			var mu sync.Mutex
+			var seen []int32
+			svc := &hx.Svc{
+				Unary: func(ctx context.Context, req *hx.Msg) (*hx.Msg, error) {
+					mu.Lock()
+					seen = append(seen, req.Count)
+					mu.Unlock()
+					return &hx.Msg{Count: req.Count}, nil
+				},
+				Stream: func(k string, ss grpc.ServerStream) error {
+					n := int32(0)
+					for {
+						m := &hx.Msg{}
+						if err := ss.RecvMsg(m); err != nil {
+							break
+						}
+						mu.Lock()
+						seen = append(seen, m.Count)
+						mu.Unlock()
+						n++
+					}
+					return ss.SendMsg(&hx.Msg{Count: n})
+				},
+			}
+			hs := httpgrpc.NewServer()
+			hs.RegisterService(hx.Desc(hx.SvcName), svc)
+			ts := httptest.NewServer(hs)
+			u, _ := url.Parse(ts.URL)
+			base := &http.Transport{}
+			ch := &httpgrpc.Channel{Transport: &faultRT{inner: base, err: f.err, left: 1}, BaseURL: u}
+			call := func(first int32) error {
+				ctx, cancel := context.WithTimeout(context.Background(), 5*time.Second)
+				defer cancel()
+				if kind == "unary" {
+					return ch.Invoke(ctx, "/verif.Svc/U", &hx.Msg{Count: first}, &hx.Msg{})
+				}
+				cs, err := ch.NewStream(ctx, hx.StreamDescOf(kind), "/verif.Svc/"+kind)
+				if err != nil {
+					return err
+				}
+				for i := int32(0); i < 2; i++ {
+					if err := cs.SendMsg(&hx.Msg{Count: first + i}); err != nil {
+						break
+					}
+				}
+				cs.CloseSend()
+				err = cs.RecvMsg(&hx.Msg{})
+				if err == nil && kind == "BD" {
+					err = cs.RecvMsg(&hx.Msg{})
+					if err == io.EOF {
+						err = nil
+					}
+				}
+				return err
+			}
+			err1 := call(100)
+			mu.Lock()
+			after1 := append([]int32(nil), seen...)
+			mu.Unlock()
+			err2 := call(200)
+			mu.Lock()
+			after2 := append([]int32(nil), seen...)
+			mu.Unlock()
+			want1, want2 := []int32{100}, []int32{100, 200}
+			if kind != "unary" {
+				want1, want2 = []int32{100, 101}, []int32{100, 101, 200, 201}
+			}
+			ok := err1 != nil && err2 == nil && fmt.Sprint(after1) == fmt.Sprint(want1) && fmt.Sprint(after2) == fmt.Sprint(want2)
+			d := map[string]interface{}{"transport": "httpgrpc", "kind": kind, "fault": "the reply is lost after the handler ran: " + f.name,
+				"first_call": fmt.Sprint(err1), "handler_saw_after_first_call": fmt.Sprint(after1), "second_call": fmt.Sprint(err2), "handler_saw_after_second_call": fmt.Sprint(after2)}
+			if !ok {
+				o.Violate("a request message was handed to the handler more than once (or the call whose reply was lost reported success, or the channel was left unusable)", d, fmt.Sprint(after2), nil)
+			}
+			*id++
+			goChecked(o, "lost_reply_"+kind, *id, ok, d)
+			ts.Close()
+			base.CloseIdleConnections()
+		}
 	}
 }
